@@ -361,6 +361,7 @@ func propC08(run *Run, n int) {
 							} else {
 								t.A = append(t.A, tw)
 							}
+							t = cfg.fixKeyed(t) // identities stay pairwise distinct
 							run.Count("target:directed-null-twin")
 							break
 						}
@@ -408,6 +409,7 @@ func propC08(run *Run, n int) {
 			}
 			if len(cfg.SetKeys) > 1 && r.Chance(1, 3) {
 				if addNullTwin(r, t, cfg.SetKeys) {
+					t = cfg.fixKeyed(t)
 					run.Count("target:null-twin")
 				}
 			}
